@@ -98,7 +98,7 @@ Value& OpMODExpression::value(Context& ctx) const
         Integer l = *a2.integer();
         if (l == 0)
           throw RuntimeError(EXC_RT_DIVIDE_BY_ZERO);
-        Value val(Integer(*a1.integer() % l));
+        Value val(Value::wrapMod(*a1.integer(), l));
         return LVAL2(val, a1, a2);
       }
       default:
